@@ -25,6 +25,11 @@ type C08Op struct {
 	Kind   string    `json:"kind"` // full | incr | remove | refull / reincr (the byte-identical text of the last full / incremental build again)
 	Rules  []C08Rule `json:"rules,omitempty"`
 	Remove []string  `json:"remove,omitempty"`
+	// badincr / badfull: Rules are complete valid rules, followed by a tail that makes the whole
+	// text invalid (Bad: 0 = the last rule once more (duplicate name), 1 = a rule with a syntax
+	// error, 2 = a character the lexer cannot tokenise, 3 = a salience literal beyond int64).
+	// The call must fail and leave the installed set - and everything later calls do - untouched.
+	Bad int `json:"bad,omitempty"`
 }
 
 type C08Case struct {
@@ -67,7 +72,7 @@ func genC08Rules(t *rapid.T, pfx string, step int) []C08Rule {
 func init() {
 	register(&Prop{
 		ID:   "C08",
-		Rule: "operation histories of up to 25 steps on one RuleBuilder: BuildRuleFromString / BuildRuleWithIncremental with 1-5 rules per call over a universe of 8 names and saliences -1..3 (new names, same name same salience, same name changed salience, ties, several rules per call) and RemoveRules with 1-4 names (present, absent, empty list), re-submission of the byte-identical text of the last full or last incremental build; every rule body reports its compile-time @sal/@desc and returns a tag fresh per (name, build); oracle = model map name -> (salience, description, tag): after every step the sort model must run exactly the model's rules, each once, in non-increasing order of the current saliences, returning the current tags and reporting the current salience/description, IsExist over the whole universe must agree, and the empty set must report 'no rule' without running anything. Non-trivial: the history changes the salience of an existing rule and later performs another incremental build, or >= 2 incremental builds touch one tie group; distinct by case hash",
+		Rule: "operation histories of up to 25 steps on one RuleBuilder: BuildRuleFromString / BuildRuleWithIncremental with 1-5 rules per call over a universe of 8 names and saliences -1..3 (new names, same name same salience, same name changed salience, ties, several rules per call) and RemoveRules with 1-4 names (present, absent, empty list), rejected incremental and full builds whose text holds complete valid rules before the error (duplicate name, syntax error, untokenisable character, salience overflow), re-submission of the byte-identical text of the last full or last incremental build; every rule body reports its compile-time @sal/@desc and returns a tag fresh per (name, build); oracle = model map name -> (salience, description, tag): after every step the sort model must run exactly the model's rules, each once, in non-increasing order of the current saliences, returning the current tags and reporting the current salience/description, IsExist over the whole universe must agree, and the empty set must report 'no rule' without running anything. Non-trivial: the history changes the salience of an existing rule and later performs another incremental build, or >= 2 incremental builds touch one tie group; distinct by case hash",
 		New:  func() interface{} { return &C08Case{} },
 		Gen: func(t *rapid.T) interface{} {
 			c := &C08Case{}
@@ -86,6 +91,12 @@ func init() {
 					} else {
 						c.Ops = append(c.Ops, C08Op{Kind: "refull"})
 					}
+				case k == 3 && pct(t, pfx+"bad", 70):
+					kind := "badincr"
+					if pct(t, pfx+"badfull", 25) {
+						kind = "badfull"
+					}
+					c.Ops = append(c.Ops, C08Op{Kind: kind, Rules: genC08Rules(t, pfx, i), Bad: uni(t, pfx+"badkind", 0, 3)})
 				case k <= 6:
 					c.Ops = append(c.Ops, C08Op{Kind: "incr", Rules: genC08Rules(t, pfx, i)})
 				default:
@@ -193,6 +204,31 @@ func init() {
 							model[r.Name] = c08Entry{r.Sal, r.Desc, tags[r.Name]}
 						}
 					}
+				case "badincr", "badfull":
+					text, _ := c08Text(op.Rules, int64(step*100))
+					last := op.Rules[len(op.Rules)-1]
+					switch op.Bad {
+					case 0:
+						dup, _ := c08Text([]C08Rule{last}, int64(step*100+50))
+						text += dup
+					case 1:
+						text += "rule \"zz_syntax\" \"d\" salience 1\nbegin\n  x = \nend\n"
+					case 2:
+						text += "rule \"zz_lexer\" # \"d\" salience 1\nbegin\n  return 1\nend\n"
+					default:
+						text += "rule \"zz_overflow\" \"d\" salience 99999999999999999999\nbegin\n  return 1\nend\n"
+					}
+					x.Class("rejected-" + op.Kind + "-with-complete-rules-before-the-error")
+					if op.Kind == "badincr" {
+						err, pan = guard(func() error { return rb.BuildRuleWithIncremental(text) })
+					} else {
+						err, pan = guard(func() error { return rb.BuildRuleFromString(text) })
+					}
+					if err == nil && pan == "" {
+						x.Violation("bad-text-accepted:"+op.Kind, "step %d: an invalid text (tail kind %d) was accepted\n%s\nhistory %s", step, op.Bad, text, jsonStr(c.Ops[:step+1]))
+						return
+					}
+					err = nil // the rejection is the expected outcome; the set must be unchanged
 				case "remove":
 					changedSinceIncr = true
 					err, pan = guard(func() error { return rb.RemoveRules(op.Remove) })
